@@ -270,9 +270,11 @@ func runC10(p *Prog, l *Ledger) {
 							bad2 = append(bad2, fmt.Sprintf("%s: %s without holding %s: it can run between a waiter's failed attempt and its Wait, and wake nobody", p.At(ins), c.MethodName(), lk))
 						}
 					}
-					if c.Static != nil && c.Recv != nil && p.InModule(c.Static) && AccessPath(c.Recv).Root == ssa.Value(m.Params[0]) && len(AccessPath(c.Recv).Sel) == 0 && c.Static != m {
-						// own helper (unblock)
-						wake = ins
+					if c.Static != nil && c.Recv != nil && p.InModule(c.Static) && AccessPath(c.Recv).Root == ssa.Value(m.Params[0]) && c.Static != m {
+						// a wake-up helper of the listener or of the limiter it belongs to (unblock): it hands something over
+						if len(AccessPath(c.Recv).Sel) == 0 || c10Wakes(p, c.Static, 3) {
+							wake = ins
+						}
 					}
 					return true
 				})
@@ -497,4 +499,34 @@ func c10Queue(p *Prog, l *Ledger, locks *LockInfo) {
 		l.Check(len(bad) == 0 && n > 0, "O5", key, p.At(acq), "eviction and delivery happen only with a token in hand, eviction first", "a waiter can be removed from the backlog without being served", bad...)
 	}
 	_ = token.ADD
+}
+
+// c10Wakes: fn (or a module function it calls statically, to the given depth) sends on a channel or signals a condition.
+func c10Wakes(p *Prog, fn *ssa.Function, depth int) bool {
+	found := false
+	allInstrs(fn, func(ins ssa.Instruction) {
+		if found {
+			return
+		}
+		switch x := ins.(type) {
+		case *ssa.Send:
+			found = true
+		case *ssa.Select:
+			for _, st := range x.States {
+				if st.Dir == types.SendOnly {
+					found = true
+				}
+			}
+		case *ssa.Call:
+			c := p.CallOf(x)
+			if c.Is("(*sync.Cond).Broadcast", "(*sync.Cond).Signal") {
+				found = true
+			} else if depth > 0 && c.Static != nil && c.Static != fn && p.InModule(c.Static) && c.Static.Blocks != nil {
+				if c10Wakes(p, c.Static, depth-1) {
+					found = true
+				}
+			}
+		}
+	})
+	return found
 }
